@@ -51,7 +51,10 @@ def requests(chain, with_d):
     ]
     for m in chain[1:]:
         R.append(('assist', 'import {a}\n{a}.{m}.'.format(a=a, m=m), (2, len(m) + 3)))
-    if with_d:
+    if with_d == 'cycle':
+        R.append(('lint', 'from {l} import *\nprint(K, foo, keep, lfval)\n'.format(l=leaf), None))
+        R.append(('lint', 'from {a} import *\nprint(K, foo, keep, lfval)\n'.format(a=a), None))
+    if with_d is True:
         R.append(('assist', 'import {a}\n{a}.d.'.format(a=a), (2, 4)))
         R.append(('assist', 'import d\nd.', (2, 2)))
     return R
@@ -70,7 +73,9 @@ class World(object):
         os.makedirs(root)
         leaf = chain[-1]
         self.ver[leaf] = 0
-        self.write(leaf, LEAF[0])
+        if with_d == 'cycle':
+            self.write('lf', 'lfval = 1\n')
+        self.write(leaf, self.content(leaf, 0))
         for i in range(len(chain) - 2, -1, -1):
             self.ver[chain[i]] = 0
             self.write(chain[i], self.content(chain[i], 0))
@@ -82,9 +87,11 @@ class World(object):
     def content(self, mod, ver):
         i = self.chain.index(mod)
         if i == len(self.chain) - 1:
-            return ('# moved down by one line\n' if ver & 2 else '') + LEAF[ver & 1]
+            # 'cycle': the last module star-imports the first one back, and then a module outside the cycle
+            back = 'from %s import *\nfrom lf import *\n' % self.chain[0] if self.with_d == 'cycle' else ''
+            return ('# moved down by one line\n' if ver & 2 else '') + back + LEAF[ver & 1]
         text = EDGE[self.kinds[i]].format(down=self.chain[i + 1])
-        if i == 0 and self.with_d:
+        if i == 0 and self.with_d is True:
             text += 'import d\n'
         if ver & 1:
             text += 'extra_%s = 1\n' % mod
@@ -171,7 +178,7 @@ def events(chain, with_d, nreq, extra=False):
     if extra:
         evs.append(('rewrite_back', chain[-1]))
         evs.append(('shift', chain[-1]))
-    if with_d:
+    if with_d is True:
         evs.append(('create',))
     evs += [('req', j) for j in range(nreq)]
     return evs
@@ -297,6 +304,10 @@ def run(ctx):
     for k in ('mod', 'star'):
         for al in A2d:
             units.append((['a', 'b'], (k,), True, 4000, al))
+    # import cycles: the last module star-imports the first one back (requests enter through either end)
+    for k in ('star', 'from') if ctx.quick else kinds:
+        units.append((['a', 'b'], (k,), 'cycle', 4000, (0, 5, 7)))
+    units.append((['a', 'b', 'c'], ('star', 'star'), 'cycle', 4000 if ctx.quick else 20000, (0, 5, 8)))
     if ctx.quick:
         for ks in (('star', 'star'), ('mod', 'from')):
             units.append((['a', 'b', 'c'], ks, False, 4000, A3[0] if ks[0] != 'mod' else A3[2]))
